@@ -556,6 +556,26 @@ fn main() {
             ctx.count(&format!("tail_{tail:?}"));
             let mut run = Run { ctx: &mut ctx, prop: prop.clone(), m: &m, pos: &pos, vdesc: &vdesc };
             all_stacks(&mut run, &bv, thorough);
+            // which subinventory encodings did the adaptive selectors build on this vector? (verification hook)
+            if prop == "C02" && tail == Tail::Fresh && ctx.case(|| format!("SelectAdapt::<span-type census> vector={vdesc}")) {
+                for inv in [0usize, 3, 5, 12] {
+                    for sub in [0usize, 1, 3] {
+                        if let Outcome::Ret((a, z)) = guard(|| {
+                            (SelectAdapt::with_inv(AddNumBits::from(bv.clone()), inv, sub).verif_span_counts(), SelectZeroAdapt::with_inv(AddNumBits::from(bv.clone()), inv, sub).verif_span_counts())
+                        }) {
+                            for c in [a, z] {
+                                ctx.add("inventory_entries_u16_span", c[0] as u64);
+                                ctx.add("inventory_entries_u32_span", c[1] as u64);
+                                ctx.add("inventory_entries_u64_span", c[2] as u64);
+                                ctx.add("spill_words", c[3] as u64);
+                                if c[1] > 0 && c[3] > 0 {
+                                    ctx.count("structures_with_u32_spans_and_spill");
+                                }
+                            }
+                        }
+                    }
+                }
+            }
         }
     }
     ctx.finish();
